@@ -17,15 +17,9 @@ int vsnprintf(char *s, size_t n, const char *fmt, va_list ap)
     return nondet_int();
 }
 
-int snprintf(char *s, size_t n, const char *fmt, ...)
-{
-    (void)fmt;
-    __CPROVER_assert(n == 0 || __CPROVER_w_ok(s, n), "libc: snprintf destination valid for n bytes");
-    return nondet_int();
-}
-
-int fprintf(FILE *f, const char *fmt, ...) { (void)f; (void)fmt; return nondet_int(); }
-int printf(const char *fmt, ...) { (void)fmt; return nondet_int(); }
+/* NOTE: truly variadic functions (snprintf, fprintf, printf) must NOT be given bodies here: under
+ * --dfcc a variadic definition gets an extra write-set parameter that collides with the variable
+ * arguments ("parameter type mismatch", cbmc rc=6).  CBMC's built-in library models are used for them. */
 int vfprintf(FILE *f, const char *fmt, va_list ap) { (void)f; (void)fmt; (void)ap; return nondet_int(); }
 int fputs(const char *s, FILE *f) { (void)s; (void)f; return nondet_int(); }
 int fputc(int c, FILE *f) { (void)c; (void)f; return nondet_int(); }
